@@ -5,10 +5,12 @@ mod families;
 mod gen;
 mod gen2;
 mod gen3;
+mod gen4;
 mod job;
 mod known;
 mod oracle;
 mod oracle2;
+mod oracle3;
 mod plan;
 mod probe;
 mod rec;
